@@ -21,6 +21,19 @@ INVALID = ["$[?@.a ==]", "$.", "$[", "$[?length(@.*) == 1]", "$[?count(1) == 1]"
            "$[?match(@.a, 'b') == true]", "$['\\x']", "$[01]", "$[?@.* == 1]", "$[1:2:3:4]", "$ ", "$[?!]"]
 
 
+def _variant(doc):
+    """A document of the same shape with different scalar content (what '$' sees differs)."""
+    if isinstance(doc, dict):
+        return {k: _variant(v) for k, v in reversed(list(doc.items()))}
+    if isinstance(doc, list):
+        return [_variant(v) for v in doc] + [0]
+    if isinstance(doc, bool) or doc is None:
+        return 1
+    if isinstance(doc, (int, float)):
+        return doc + 1
+    return doc + "x"
+
+
 def record(jp, env, q, doc, edoc, extra=None):
     def run(path, kind, fn):
         res = {"path": path, "kind": kind, "locs": [], "none": False, "cls": "", "jp": True}
@@ -49,6 +62,25 @@ def record(jp, env, q, doc, edoc, extra=None):
         results.append(run("module.compile.apply", "list", lambda: jp.compile(q).apply(doc)))
         results.append(run("module.compile.finditer", "list", lambda: list(jp.compile(q).finditer(doc))))
         results.append(run("module.compile.find_one", "first", lambda: jp.compile(q).find_one(doc)))
+    def interleaved():
+        c = e.compile(q)
+        other = _variant(doc)
+        a, b = iter(c.finditer(doc)), iter(c.finditer(other))
+        out = []
+        done_a = done_b = False
+        while not done_a:
+            try:
+                out.append(next(a))
+            except StopIteration:
+                done_a = True
+            if not done_b:
+                try:
+                    next(b)
+                except StopIteration:
+                    done_b = True
+        return out
+
+    results.append(run("env.compile.finditer(interleaved with a sibling iterator)", "list", interleaved))
     results.append(run("env.find", "list", lambda: e.find(q, doc)))
     results.append(run("env.finditer", "list", lambda: list(e.finditer(q, doc))))
     results.append(run("env.find_one", "first", lambda: e.find_one(q, doc)))
@@ -92,6 +124,10 @@ def run(chk: core.Check, tier: str, seed: int) -> None:
             for nb in gen.neighbours(q, rng, 5):
                 recs.append(record(jp, env, nb, d, ed))
             recs.append(record(jp, env, q, d, ed))
+    for q in ["$.items[?@.v == $.want]", "$..[?@ == $.want]", "$.items[?$.on]", "$.items[?@.v != $.want && $.items[0]]"]:
+        for want in (0, 1, 2):
+            d = {"want": want, "on": want, "items": [{"v": 0}, {"v": 1}, {"v": 2}, {"v": 1}]}
+            recs.append(record(jp, fresh, q, d, core.enc_value(d)))
     # evaluation-time errors: recursion limit
     deep = [[[[[[1]]]]], {"a": {"a": {"a": {"a": 1}}}}, [1, [2, [3, [4]]], {"a": [[[]]]}], [[1], [2]]]
     for lim in (1, 2, 3, 5):
